@@ -19,8 +19,8 @@ ASSUMPTIONS = [
     'awaitable completions and resume calls are delivered between two event-loop callbacks',
 ]
 BUDGET = {
-    'quick': {'enum': ['p3', 'w2', 'wfail', 'pair3'], 'hyp': 2000, 'shards': 8},
-    'thorough': {'enum': ['p3', 'p4', 'w2', 'w3', 'wfail', 'pair3', 'pair4'], 'hyp': 100000, 'shards': 16},
+    'quick': {'enum': ['p3', 'w2', 'wfail', 'pair3', 'tasks'], 'hyp': 2000, 'shards': 8},
+    'thorough': {'enum': ['p3', 'p4', 'w2', 'w3', 'wfail', 'pair3', 'pair4', 'tasks'], 'hyp': 100000, 'shards': 16},
 }
 ALPHABET = [['resume', 'v1'], ['resume', None], ['pause', 'pm'], ['play']]
 
@@ -34,6 +34,18 @@ def enumerate_cases(tier, scope):
             for kk in range(1, k + 1):
                 for sched in gen.schedules(ALPHABET, kk, gap):
                     yield {'program': cat[name], 'schedule': [['tick', 1]] + sched, 'tag': f'{scope}:{name}'}
+    elif scope == 'tasks':
+        # the task stepping the waiting process is cancelled by its caller around the wake-up, and the process is stepped
+        # again later: the wake-up must survive that as well (sync steps only: a cancelled wait is simply waited again)
+        alpha = [['resume', 'v1'], ['resume', None], ['pause', 'pm'], ['play'], ['cancel_task'], ['restep']]
+        sync2 = {'steps': [gen.S([], ['wait', 1, 'w', None]), gen.S([['ctxinc', 'n']], ['wait', 2, 'w2', {'d': 1}]), gen.S([], ['value', 3])]}
+        for name, prog in (('wait1', cat['wait1']), ('sync2', sync2)):
+            for kk in (2, 3):
+                for sched in gen.schedules(alpha, kk, 1):
+                    kinds = [e[0] for e in sched]
+                    if 'cancel_task' not in kinds or 'resume' not in kinds:
+                        continue
+                    yield {'program': prog, 'schedule': [['tick', 1]] + sched, 'tag': f'tasks:{name}'}
     elif scope in ('w2', 'w3'):
         from . import wc_await
 
